@@ -19,7 +19,7 @@ func init() {
 			"positive. R4: entries obtained from the nonce-parametrised reader are written back under a key recomputed from the entry's own metadata nonce: the reader must relate that nonce to the requested one (KNOWN FINDING on this tree, see known_findings.json). " +
 			"R5: the hand-over appends the create role only after a search of the same list for the same constant found nothing. Does NOT decide: the invariant on reachable states as such.",
 		Trusted: []string{"C02-R1, C08-R1 (metadata attached only by create)", "A-deps"},
-		Rules:   []func(*Ctx){c15r1, c15r2, c15r3, c15r4, c15r5, c15r6, c15r7},
+		Rules:   []func(*Ctx){c15r1, c15r2, c15r3, c15r4, c15r5, c15r6, c15r7, c15r8, c15r9},
 	})
 }
 
@@ -393,4 +393,18 @@ func c15r5(c *Ctx) {
 func c15r6(c *Ctx) { handOverRules(c, "C15-R6", "C15-R6b") }
 func c15r7(c *Ctx) {
 	c.shareRule(c03r6, "C03-R6", "C15-R7", "SaveKeyValue cannot write under a protocol key", nil)
+}
+
+// c15r8: "role lists hold no duplicates": an unset must remove what it names — a removal at the own index of a forward loop
+// skips the element that moves up, the role survives and the next set stores it twice (shared with C03-R7).
+func c15r8(c *Ctx) {
+	c.shareRule(c03r7, "C03-R7", "C15-R8", "a role removal does not skip list elements (no removal at a forward loop's own index)", nil)
+}
+
+// c15r9: what a function writes into an account it loaded itself becomes state only through SaveAccount: every such write is
+// followed by the save on every path to success (shared with C01-R5). A counter written after the save is lost with a
+// persisting accounts adapter: the next owner holds the create role with a counter below the nonces already issued.
+func c15r9(c *Ctx) {
+	c.Rule("C15-R9", "a loaded account that is modified is saved afterwards on every path to success", 2)
+	loadedAccountSaved(c, "C15-R9", "", nil)
 }
